@@ -273,6 +273,8 @@ fn dirty_documents(c: &mut Ctx) {
 }
 
 fn documents(c: &mut Ctx) {
+    // damaged, over-deep files first (see c02::over_deep_prelude): what save wrote must load whatever this process parsed before
+    super::c02::over_deep_prelude(c);
     let n = c.n(300, 5000);
     for i in 0..n {
         let Some(mut r) = c.case("doc", i) else { continue };
